@@ -27,3 +27,6 @@ chk("C14","chainsim","exploration",
 chk("C03","chainsim","exploration",
  "Seeded proof-fault search: appchains bound to Happy / a WASM bit rule / FabricSim, optional relay BitXHub with n validators; proofs valid, refused (plain false or error), absent, hash-mismatched, under-signed; the same IBTPs as plain invocations; validity judged by the harness; invalid => FAILED + twin no-effect; node death and wedges are attributed to the run.",
  CN+" Rule lifecycle changes between IBTPs (update/logout of the master rule) are not generated yet.", "deterministic simulation: seeded proof-fault sequences + twin no-effect diff + process-death attribution", "DESIGN.md §5 C03")
+chk("C17","chainsim","exploration",
+ "The dispatch surface is enumerated by reflection over the registered contracts (exhaustive, counted in the evidence); roles, argument vectors, audit setting and state histories are sampled; oracles: reserved entry points fail, privileged operations fail for outsiders, refused calls change nothing (twin replica), reads write nothing, no outsider call changes existing interchain counters/records.",
+ CN+" No schedule or fault dimension exists for this property: the simulator contributes configuration/state-history variety, the twin-diff oracle and process-death attribution. The classification of methods into reserved/privileged is written from the statement.", "deterministic simulation: reflection-enumerated surface x seeded roles/arguments + twin no-effect diff", "DESIGN.md §5 C17")
